@@ -166,6 +166,9 @@ DAGS["two_pulls_parallel"] = T(["A", "B", "P", "PQ", "C"], [("A", "P"), ("B", "P
 
 # consumer dragged ahead by ITS consumer while reading its own source through a delay-to-pull adapter
 DAGS["a_dpull_b_c"] = T(["A", "B", "C"], [("A", "B", ["dpull1"]), ("B", "C")], order=[2, 1, 0])
+# pull-based component whose FIRST input is delayed and whose second is read directly; consumer listed first
+DAGS["ab_dfix_first_p_c"] = T(["A", "B", "P", "C"], [("A", "P", ["dfix"]), ("B", "P"), ("P", "C")],
+                              order=[3, 2, 0, 1])
 # two links with their own delay-to-pull adapter into one consumer (the adapters' pull histories are per link)
 DAGS["two_dpull_inputs"] = T(["A", "B", "C"], [("A", "C", ["dpull1"]), ("B", "C", ["dpull1"])], order=[2, 0, 1])
 # rings resolved by a delay-to-pull adapter (delay = n steps of the pulling component + extra)
